@@ -82,7 +82,10 @@ class Banner:
         if mx is None:
             return None
         protocol = min(re.findall(cls.RX_PROTOCOL, mx.group(1)))
-        protocol = (int(protocol[0]), int(protocol[1]))
+        try:
+            protocol = (int(protocol[0]), int(protocol[1]))
+        except ValueError:  # The peer sent a version number too long to convert (Python limits int() to 4300 digits).
+            return None
         software = (mx.group(3) or '').strip() or None
         if software is None and (mx.group(2) or '').startswith('-'):
             software = ''
